@@ -372,8 +372,10 @@ def heights_and_branches(d, topology, n, tree_kind, params):
 def k2_task(task, tr):
     from torchtree.evolution.tree_likelihood import TreeLikelihoodModel
 
-    topology, n, tree_kind, site_kind, tip_states = task
-    label = f'K2 topology={cm.to_newick(topology)} tree={tree_kind} site={site_kind} tip_states={tip_states}'
+    topology, n, tree_kind, site_kind, tip_states = task[:5]
+    second_round = len(task) > 5 and task[5]
+    label = (f'K2 topology={cm.to_newick(topology)} tree={tree_kind} site={site_kind} tip_states={tip_states}'
+             + (' [after updating every parameter]' if second_round else ''))
     tr.fn(TreeLikelihoodModel._call, TreeLikelihoodModel.calculate_with_tip_partials,
           TreeLikelihoodModel.calculate_with_tip_states)
     tr.bounds['K2'] = ('n in {3,4}; {unrooted, time tree + strict clock, time tree + per-branch clock} x '
@@ -400,6 +402,19 @@ def k2_task(task, tr):
             cm.symbolize(dic['mu'], 'mu')
         fr = cm.symbolize(dic['freqs'], 'pi')
         like.subst_model.p_t = stub_p_t(S)
+        if second_round:
+            # evaluate once, then update EVERY parameter with fresh symbols: the value reported afterwards must be the
+            # marginal likelihood at the new values (stale heights / rates / branch lengths would keep old symbols)
+            _ = like()
+            if tree_kind == 'unrooted':
+                params['blens'] = cm.ids_list(cm.symbolize(dic['tree.blens'], 'b2_', dic['tree.blens'].tensor._v * 1.3))
+            else:
+                params['heights'] = cm.ids_list(cm.symbolize(dic['tree.heights'], 'h2_', dic['tree.heights'].tensor._v * 1.3))
+                params['rate'] = cm.ids_list(cm.symbolize(dic['rate'], 'rate2_', dic['rate'].tensor._v * 0.7))
+            for key in ('shape', 'pinv', 'mu'):
+                if key in dic:
+                    cm.symbolize(dic[key], key + '2_', dic[key].tensor._v * 0.9)
+            fr = cm.symbolize(dic['freqs'], 'pi2_', dic['freqs'].tensor._v)
         impl = like()
         tr.witness_runs += 1
         tr.ops_checked += t.nchecked
@@ -439,7 +454,7 @@ def k2_task(task, tr):
         dom = []
         V = {d.args[i][0]: i for i in d.topo([impl_id, total]) if d.ops[i] == 'var'}
         for name, i in V.items():
-            if name.startswith(('b[', 'rate', 'shape', 'mu', 'pi[')):
+            if name.startswith(('b[', 'b2_', 'rate', 'shape', 'mu', 'pi[', 'pi2_')):
                 dom.append(d.lt(0, i))
             if name.startswith('pinv'):
                 dom.append(d.le(0, i))
@@ -467,16 +482,29 @@ def k2_task(task, tr):
                    'path_conditions': [d.to_str(c, 4) for c in t.pcs[:4]]})
 
         def replay(vals):
-            return k2_replay(topology, n, tree_kind, site_kind, tip_states, vals)
+            return k2_replay(topology, n, tree_kind, site_kind, tip_states, vals, second_round)
 
         cm.discharge(tr, d, hyps, goals, label, replay=replay, timeout=60.0, varnodes=V,
                      sig_prefix='TreeLikelihoodModel._call:', defined=False)
         tr.regions += 1
 
 
-def k2_replay(topology, n, tree_kind, site_kind, tip_states, vals):
+def k2_replay(topology, n, tree_kind, site_kind, tip_states, vals, second_round=False):
     """Real HKY (asymmetric P) instead of the uninterpreted P; plain tensors; numeric brute force."""
     like, dic = cm.build(k2_model_json(topology, n, tree_kind, site_kind, tip_states))
+    if second_round:
+        for key in ('kappa', 'freqs', 'tree.blens', 'tree.heights', 'rate', 'shape', 'pinv', 'mu'):
+            if key in dic:
+                dic[key].tensor = dic[key].tensor.to(torch.float64)
+        _ = like()
+        vals = dict(vals)
+        for key, prefix in [('tree.blens', 'b'), ('tree.heights', 'h'), ('rate', 'rate'), ('shape', 'shape'), ('pinv', 'pinv'), ('mu', 'mu')]:
+            if key in dic:
+                base = dic[key].tensor
+                scale = {'tree.blens': 1.3, 'tree.heights': 1.3, 'rate': 0.7}.get(key, 0.9)
+                for k_, name in enumerate(cm.names_shaped(prefix, tuple(base.shape))):
+                    new_name = name.replace(prefix + '[', prefix + '2_[')
+                    vals[name] = vals.get(new_name, float(base.reshape(-1)[k_]) * scale)
 
     def setp(key, prefix):
         if key in dic:
@@ -562,6 +590,9 @@ def tasks_for(tier):
                 ts.append(('K2', topo, 3, tree_kind, site_kind, tipst))
         ts.append(('K2', cm.balanced(4), 4, 'simple', 'constant', False))
         ts.append(('K2', cm.caterpillar(4), 4, 'unrooted', 'constant+mu', True))
+        ts.append(('K2', cm.caterpillar(3), 3, 'strict', 'weibull', False, True))
+        ts.append(('K2', cm.caterpillar(3), 3, 'simple', 'invariant', True, True))
+        ts.append(('K2', cm.caterpillar(3), 3, 'unrooted', 'weibull+inv', False, True))
     else:
         for n in (3, 4, 5):
             for topo in cm.rooted_topologies(n):
@@ -581,6 +612,8 @@ def tasks_for(tier):
                             if n == 4 and site_kind in ('weibull', 'weibull+inv') and tree_kind != 'unrooted':
                                 continue
                             ts.append(('K2', topo, n, tree_kind, site_kind, tipst))
+                            if n == 3 and not tipst:
+                                ts.append(('K2', topo, n, tree_kind, site_kind, tipst, True))
     return ts
 
 
